@@ -222,7 +222,7 @@ def gen_pool_cases(rng, tier):
         npairs = n * (n - 1) // 2
         c = rng.choice(CPUS)
         k = rng.choice([0, npairs - 1, rng.randint(0, npairs - 1), rng.randint(0, npairs - 1)])
-        mode = rng.choice(["pair", "pair", "call"])
+        mode = rng.choice(["pair", "pair", "call", "pairfrom", "pairfrom"])
         yield Case("distfail", [rows_str(rows), c, k, mode, WATCH_MS], c >= 2, "distfail-%s" % mode)
     # every worker fails early while far more than the channel capacity (100 pairs) is still to be sent: the producer
     # must still be drained and the call must return
@@ -230,6 +230,9 @@ def gen_pool_cases(rng, tier):
                     [(n, c, k) for n in (16, 20, 24, 40) for c in (1, 2, 4, 8, 16) for k in (0, 1, 5, 50)]):
         rows = rand_alignment(rng, nrows=n, ncols=8, plain=True)
         yield Case("distfail", [rows_str(rows), c, k, "call", WATCH_MS], True, "distfail-all-workers-early")
+        if c >= 2:
+            # every evaluation from the k-th pair on fails: several workers hold an error at the same time
+            yield Case("distfail", [rows_str(rows), c, k, "pairfrom", WATCH_MS], True, "distfail-several-workers-fail")
     for _ in range(4 if quick else 20):
         n = rng.choice([3, 5])
         rows = rand_alignment(rng, nrows=n, ncols=6, plain=True)
